@@ -178,7 +178,9 @@ HexApply(s0, c) ==
 (*                        PART 2 - DECLARATIVE LAYER                       *)
 (***************************************************************************)
 HexFaceOK(s, f) == Len(At(s.faces, f)) = 4
-HexCellOK(s, c) == Len(At(s.cells, c)) = 6 /\ Cardinality(CellVertSet(s, c)) = 8
+HexCellOK(s, c) == LET hfs == At(s.cells, c) IN
+                   /\ Len(hfs) = 6 /\ Cardinality({Full(h) : h \in Rng(hfs)}) = 6
+                   /\ Cardinality(CellVertSet(s, c)) = 8
 HexShape(s) == /\ \A f \in LiveF(s) : HexFaceOK(s, f)
                /\ \A c \in LiveC(s) : HexCellOK(s, c)
 
